@@ -18,6 +18,7 @@ from typing import Optional, TypeVar, Union
 import asynq
 from typing_extensions import Protocol
 
+from .analysis_lib import is_positional_only_arg_name
 from .error_code import ErrorCode
 from .node_visitor import ErrorContext
 from .options import Options, PyObjectSequenceOption
@@ -242,9 +243,30 @@ def compute_parameters(
         *vararg_defaults,
         *kw_defaults,
     ]
+    # PEP 484: a parameter whose name starts with two underscores is positional-only,
+    # and so is everything before it. The signatures we build from function objects
+    # follow the same convention.
+    last_dunder = max(
+        (
+            i
+            for i, arg in enumerate(node.args.args)
+            if is_positional_only_arg_name(arg.arg)
+        ),
+        default=-1,
+    )
     args: list[tuple[ParameterKind, ast.arg]] = [
         (ParameterKind.POSITIONAL_ONLY, arg) for arg in posonly_args
-    ] + [(ParameterKind.POSITIONAL_OR_KEYWORD, arg) for arg in node.args.args]
+    ] + [
+        (
+            (
+                ParameterKind.POSITIONAL_ONLY
+                if i <= last_dunder
+                else ParameterKind.POSITIONAL_OR_KEYWORD
+            ),
+            arg,
+        )
+        for i, arg in enumerate(node.args.args)
+    ]
     if node.args.vararg is not None:
         args.append((ParameterKind.VAR_POSITIONAL, node.args.vararg))
     args += [(ParameterKind.KEYWORD_ONLY, arg) for arg in node.args.kwonlyargs]
